@@ -25,7 +25,7 @@ SPELL = {
 }
 DUCK = {"BIGINT": [0], "INTEGER": [1], "DOUBLE": [3], "VARCHAR": [4], "BOOLEAN": [5], "DATE": [6], "TIME": [7], "TIMESTAMP": [8], "TIMESTAMP_NS": [9],
         "TIMESTAMP WITH TIME ZONE": [10], "BLOB": [11], "JSON": [12]}
-PATHS = ["literal", "param", "qmark", "insel", "ctas", "clone", "pandas", "pandas_multi"]
+PATHS = ["literal", "param", "qmark", "insel", "ctas", "clone", "pandas", "pandas_multi", "var"]
 
 
 def duck_enc(s):
@@ -300,6 +300,14 @@ def main():
                             curq.execute(f"insert into {tbl} select ?, parse_json(?)", (ident, v))
                         else:
                             curq.execute(f"insert into {tbl} (id, c) values (?, ?)", (ident, v))
+                    elif path == "var":
+                        # through a session variable: SET holds the literal, the INSERT refers to it (the first and the last SET have the same text)
+                        if (t[0] == 9 and v is not None) or (isinstance(v, str) and "\\" in v):
+                            stored_by.setdefault(path, {})[j] = ("skip", [])     # binary literals / backslashes in SET values: findings of their own (C01-binary-sql, C15-backslash-value)
+                            continue
+                        vlit = lit(t, v) if not (t[0] == 10 and v is not None) else "parse_json('" + v.replace("'", "''") + "')"
+                        cur.execute(f"set c01_v = {vlit}")
+                        cur.execute(f"insert into {tbl} select {ident}, $c01_v")
                     elif path == "literal":
                         cur.execute(f"insert into {tbl} values ({ident}, {lit(t, v)})")
                     elif path == "param":
@@ -353,7 +361,7 @@ def main():
                 if j in stored_by[path] and isinstance(stored_by[path][j], str):
                     continue
                 got = backd.get(ident, [])
-                if path == "pandas_multi" and isinstance(stored_by[path].get(j), tuple):
+                if path in ("pandas_multi", "var") and isinstance(stored_by[path].get(j), tuple):
                     continue
                 # a bound -0.0 is the text `-0.0`, a fixed-point zero in Snowflake too: its sign is not part of the written value
                 zero = path == "param" and isinstance(v, float) and v == 0.0 and len(got) == 1 and isinstance(got[0], float) and got[0] == 0.0
@@ -390,7 +398,9 @@ def main():
                     known_or_report("C01-fixed0-decimal", "fixed0", what, rep)
                 elif t[0] == 9 and v is not None and ((p == "literal" and v) or p == "param"):
                     known_or_report("C01-binary-sql", "binsql", what, rep)
-                elif t[0] == 3 and p in ("literal", "param") and isinstance(r, tuple) and len(r[1]) == 1 and isinstance(r[1][0], float) and "e" not in repr(v) \
+                elif t[0] == 4 and p == "var" and re.search(r"\$\w", v or "") and isinstance(r, str) and "Session variable" in r:
+                    known_or_report("C01-var-dollar-value", "vardollar", what, rep)
+                elif t[0] == 3 and p in ("literal", "param", "var") and isinstance(r, tuple) and len(r[1]) == 1 and isinstance(r[1][0], float) and "e" not in repr(v) \
                         and len(repr(v).replace("-", "").replace(".", "").lstrip("0")) >= 16 and abs(r[1][0] - v) <= abs(v) * 2.3e-16:
                     known_or_report("C01-float-decimal-literal", "fltlit", what, rep)
                 elif t[0] == 4 and p == "literal" and re.search(r"\$\w", v or "") and isinstance(r, str) and "Session variable" in r:
@@ -406,6 +416,15 @@ def main():
         for p in PATHS:
             for x in (f"w{n}_{p}", f"w{n}_src"):
                 cur.execute(f"drop table if exists {x}")
+    # a value BUILT in the SET statement (recorded finding: the stored text is the re-rendered transformed expression)
+    try:
+        cur.execute("set c01_o = object_construct('a', 1)")
+        got_o = cur.execute("select $c01_o").fetchall()[0][0]
+    except Exception as e:  # noqa: BLE001
+        got_o = f"{type(e).__name__}"
+    ck.cov["evaluations"] += 1
+    if not (isinstance(got_o, str) and got_o.replace(" ", "") == '{"a":1}'):
+        known_or_report("C01-var-rerendered-value", "varoc", f"set c01_o = object_construct('a', 1); select $c01_o gives {got_o!r}", {"statements": ["set c01_o = object_construct('a', 1)", "select $c01_o"], "observed": repr(got_o)})
     # text values on an instance configured with nop_regexes: a VALUE that looks like a no-op'd statement is still data
     fsn, connn = fsutil.fresh(nop_regexes=["^CALL.*", r"ALTER\s+SESSION\s", "^USE ROLE"])
     curn = connn.cursor()
